@@ -54,16 +54,28 @@ exception Stop
 let small_case id c =
     let ntrees = int_of_sx (List.hd (args (field "ntrees" c))) in
     let ops = args (field "ops" c) and obs = args (field "obs" c) in
-    let st = ref (init (nat_of_int ntrees)) in
-    let spec = Array.make ntrees [] in
-    let sn = { sz = 0; cells = Array.make 64 zero_cell; gaps = []; hdr = Array.init ntrees (fun _ -> [| 0; 0; 0; 0 |]) } in
+    (* arenas: arena 0 is the allocator of the case, every (fork a) adds a copy of arena a; the trees of
+       arena j have the global indexes j*ntrees .. j*ntrees+ntrees-1 (harness/cmd/c05/fork.go) *)
+    let maxar = 4 in
+    let nar = ref 1 in
+    let sts = Array.make maxar (init (nat_of_int ntrees)) in
+    let spec = Array.make (maxar * ntrees) [] in
+    let new_snap () = { sz = 0; cells = Array.make 64 zero_cell; gaps = []; hdr = Array.init (maxar * ntrees) (fun _ -> [| 0; 0; 0; 0 |]) } in
+    let sns = Array.init maxar (fun _ -> new_snap ()) in
+    let used = Array.make maxar (-1) in
     let regs = Array.make 8 None in     (* register -> (tree, node) as the driver believes *)
-    let all_spec_ids () = List.concat_map (fun l -> List.map (fun ((i, _), _) -> int_of_z i) l) (Array.to_list spec) in
+    let arena_ids ar = List.concat_map (fun l -> List.map (fun ((i, _), _) -> int_of_z i) l) (Array.to_list (Array.sub spec (ar * ntrees) ntrees)) in
+    let all_spec_ids_of t = arena_ids (t / ntrees) in
     let nops = List.length ops in
     (* after the first finding of a case the states are out of step: report it and stop the case *)
+    (* after a property failure the case is over.  After the first disagreement with the MODEL the case goes on
+       with the property side alone (sorted maps and oracles are driven by the implementation's own outputs),
+       further disagreements with the model are not reported: a defect whose first symptom is a fine mismatch
+       (a wrong free list, a cell that moved) is followed to the operation where it violates the property *)
     let found = ref false in
+    let out_of_step = ref false in
     let propfail id m = found := true; propfail id m in
-    let mismatch id m = found := true; mismatch id m in
+    let mismatch id m = if not !out_of_step then begin out_of_step := true; mismatch id m end in
     let obs_a = Array.of_list obs in
     (try
       List.iteri (fun i o ->
@@ -79,33 +91,57 @@ let small_case id c =
              propfail id (here ^ " the operation panicked inside the tree code");
              raise Stop
          | "hang" ->
-             propfail id (here ^ " an operation of this case does not terminate");
+             propfail id (here ^ " the operation does not terminate");
              raise Stop
          | _ -> ());
         (* ---- update the snapshot ---- *)
-        sn.sz <- int_of_sx (List.hd (args (field "sz" ob)));
-        List.iter (fun cl ->
-          match ints_of_sx cl with
-          | [ci; k; v; p; l; rr; col] -> set_cell sn ci [| k; v; p; l; rr; col |]
-          | _ -> failwith "cell") (args (field "d" ob));
-        (match field_opt "g" ob with Some g -> sn.gaps <- List.map int_of_sx (args g) | None -> ());
-        List.iter (fun h -> if tag h = "h" then
-          (match List.map int_of_sx (args h) with
-           | [t; a; b; cc; d] -> sn.hdr.(t) <- [| a; b; cc; d |]
-           | _ -> failwith "hdr")) (args ob);
+        let changed = Array.make maxar false in
+        let upd ar rc =
+          let sn = sns.(ar) in
+          if args (field "d" rc) <> [] || field_opt "g" rc <> None || List.exists (fun h -> tag h = "h") (args rc) then changed.(ar) <- true;
+          sn.sz <- int_of_sx (List.hd (args (field "sz" rc)));
+          List.iter (fun cl ->
+            match ints_of_sx cl with
+            | [ci; k; v; p; l; rr; col] -> set_cell sn ci [| k; v; p; l; rr; col |]
+            | _ -> failwith "cell") (args (field "d" rc));
+          (match field_opt "g" rc with Some g -> sn.gaps <- List.map int_of_sx (args g) | None -> ());
+          (match field_opt "used" rc with Some u -> used.(ar) <- int_of_sx (List.hd (args u)) | None -> ());
+          List.iter (fun h -> if tag h = "h" then
+            (match List.map int_of_sx (args h) with
+             | [t; a; b; cc; d] -> sn.hdr.(t) <- [| a; b; cc; d |]
+             | _ -> failwith "hdr")) (args rc) in
+        upd 0 ob;
+        List.iter (fun x -> if tag x = "ar" then begin
+          let j = int_of_sx (List.hd (args x)) in
+          if j < 1 || j >= maxar then failwith "arena index";
+          upd j x end) (args ob);
         let a = args o in
         let ai k = int_of_sx (List.nth a k) in
         let z k = z_of_int (ai k) in
         let skip = tag r = "skip" in
         let rarg k = List.nth (args r) k in
         (* ---- the model operation (node indexes taken from the observation) and the specification ---- *)
-        let tn t = nat_of_int t in
+        let tn t = nat_of_int (t mod ntrees) in
+        let model_ar = ref 0 in
         let it_answer what t got expect =
           if got <> int_of_z expect then
             propfail id (Printf.sprintf "%s %s on tree %d answers node %d but the sorted map says %d; map=%s" here what t got (int_of_z expect) (show_entries spec.(t))) in
+        let on t = model_ar := t / ntrees in
         let model_op : op option =
           if skip then None else
           match tag o with
+          | "fork" ->
+              (* Allocator.Clone + CloneShallow of every tree: the new arena is a copy of the old one (sorted maps,
+                 node ids, model state); its snapshot was recorded completely *)
+              let a = ai 0 and na = int_of_sx (rarg 0) in
+              if a < 0 || a >= !nar || na <> !nar || na >= maxar then failwith "fork";
+              sts.(na) <- sts.(a);
+              for lt = 0 to ntrees - 1 do spec.(na * ntrees + lt) <- spec.(a * ntrees + lt) done;
+              incr nar;
+              count "op_fork";
+              changed.(a) <- true; changed.(na) <- true;
+              None
+          | "hib" -> count "op_hib"; if ai 0 >= 0 && ai 0 < maxar then changed.(ai 0) <- true; None      (* Hibernate + Boot: nothing changes *)
           | "ins" ->
               let t = ai 0 in
               let ok = bool_of_sx (rarg 0) and nid = int_of_sx (rarg 1) in
@@ -113,7 +149,7 @@ let small_case id c =
               if ok <> expect then
                 propfail id (Printf.sprintf "%s Insert returns %b but the key is %s; map=%s" here ok (if expect then "absent" else "present") (show_entries spec.(t)))
               else if ok then begin
-                if nid = 0 || nid = nl || List.mem nid (all_spec_ids ()) then
+                if nid = 0 || nid = nl || List.mem nid (all_spec_ids_of t) then
                   propfail id (Printf.sprintf "%s Insert returns an iterator to node %d, which is in use or reserved" here nid);
                 spec.(t) <- s_insert (z_of_int nid) (z 1) (z 2) spec.(t);
                 if ai 3 >= 0 then regs.(ai 3) <- Some (t, nid)
@@ -199,7 +235,7 @@ let small_case id c =
           | "clone" ->
               let s = ai 0 and d = ai 1 in
               let nids = List.map int_of_sx (args r) in
-              let used = all_spec_ids () in
+              let used = all_spec_ids_of s in
               if List.length nids <> List.length spec.(s) then
                 propfail id (Printf.sprintf "%s the clone has %d elements, the original %d" here (List.length nids) (List.length spec.(s)))
               else begin
@@ -210,11 +246,14 @@ let small_case id c =
               Some (OClone (tn s, tn d, List.map z_of_int nids))
           | t -> failwith ("unknown op " ^ t) in
         (match model_op with
-         | None -> count "ops_skipped"
+         | None -> if skip then count "ops_skipped"
          | Some mo ->
              count ("op_" ^ tag o);
-             let (st', res) = step !st mo in
-             st := st';
+             let gt = (match tag o with "deli" | "next" | "prev" -> int_of_sx (rarg 0) | _ -> ai 0) in
+             on gt;
+             changed.(!model_ar) <- true;
+             let (st', res) = step sts.(!model_ar) mo in
+             sts.(!model_ar) <- st';
              let bad what = mismatch id (Printf.sprintf "%s result: model %s, implementation %s" here what (string_of_sx r)) in
              (match res, tag r with
               | RIns (ok, n), "ins" -> if ok <> bool_of_sx (rarg 0) || int_of_z n <> int_of_sx (rarg 1) then bad (Printf.sprintf "(ins %b %d)" ok (int_of_z n))
@@ -231,10 +270,17 @@ let small_case id c =
               | RUnspec, _ -> bad "outside its domain (unspecified)"
               | _ -> bad "of another kind"));
         (* ---- fine correspondence: arena image of the model = snapshot ---- *)
+        (* an arena is judged after every operation on one of its trees and whenever one of its cells, its gaps
+           or a header changed (the verdict is a function of these, the sorted maps and the model state) *)
+        for ar = 0 to !nar - 1 do if changed.(ar) || !nar = 1 then begin
+        let sn = sns.(ar) in
+        let st = sts.(ar) in
+        let here = if !nar > 1 then Printf.sprintf "%s [arena %d]" here ar else here in
         let total = ref 0 in
         let lv = ref [] in
-        for t = 0 to ntrees - 1 do
-          let (h, cl) = to_arena (get_tree !st (nat_of_int t)) in
+        for lt = 0 to ntrees - 1 do
+          let t = ar * ntrees + lt in
+          let (h, cl) = to_arena (get_tree st (nat_of_int lt)) in
           let mh = [| int_of_z h.hroot; int_of_z h.hmin; int_of_z h.hmax; int_of_z h.hcount |] in
           if mh <> sn.hdr.(t) then
             mismatch id (Printf.sprintf "%s header of tree %d: model root=%d min=%d max=%d count=%d, implementation root=%d min=%d max=%d count=%d"
@@ -247,15 +293,25 @@ let small_case id c =
             if m <> cell_at sn ci then
               mismatch id (Printf.sprintf "%s cell %d of tree %d: model %s, implementation %s" here ci t (show_cell m) (show_cell (cell_at sn ci)))) cl
         done;
-        if int_of_z !st.asize <> sn.sz then mismatch id (Printf.sprintf "%s len(storage): model %d, implementation %d" here (int_of_z !st.asize) sn.sz);
+        if int_of_z st.asize <> sn.sz then mismatch id (Printf.sprintf "%s len(storage): model %d, implementation %d" here (int_of_z st.asize) sn.sz);
         let nonzero = ref 0 in
         for ci = 0 to min (Array.length sn.cells) sn.sz - 1 do if sn.cells.(ci) <> zero_cell then incr nonzero done;
         if !nonzero <> !total then mismatch id (Printf.sprintf "%s %d cells of the arena are in use, the model trees have %d nodes" here !nonzero !total);
         let expect_gaps = List.filter (fun ci -> not (List.mem ci !lv)) (List.init (max 0 (sn.sz - 1)) (fun x -> x + 1)) in
         if expect_gaps <> sn.gaps then mismatch id (here ^ " the gaps are not the complement of the live nodes");
+        if used.(ar) >= 0 && used.(ar) <> (if sn.sz = 0 then 0 else !total + 1) then
+          mismatch id (Printf.sprintf "%s Used() = %d, the model trees have %d nodes + cell 0" here used.(ar) !total);
         (* ---- property oracle on the snapshot of the implementation ---- *)
         let arena = (fun zi -> coq_cell (cell_at sn (int_of_z zi))) in
-        for t = 0 to ntrees - 1 do
+        (* the free list must not offer a cell that is an element of a tree (the next Insert into ANY tree of
+           this allocator would overwrite it) *)
+        let ids = arena_ids ar in
+        if Sys.getenv_opt "C05_NO_FREELIST_ORACLE" = None then
+        List.iter (fun g -> if List.mem g ids then
+          propfail id (Printf.sprintf "%s the free list of the allocator contains node %d, which is an element of one of its trees (%s)" here g
+            (String.concat " " (List.init ntrees (fun lt -> show_entries spec.(ar * ntrees + lt)))))) sn.gaps;
+        for lt = 0 to ntrees - 1 do
+          let t = ar * ntrees + lt in
           let hd = sn.hdr.(t) in
           let h = { hroot = z_of_int hd.(0); hmin = z_of_int hd.(1); hmax = z_of_int hd.(2); hcount = z_of_int hd.(3) } in
           if hd.(3) < 0 then propfail id (Printf.sprintf "%s count of tree %d is negative" here t)
@@ -271,7 +327,8 @@ let small_case id c =
             else if not (height_okb (arena_tree arena h)) then
               propfail id (Printf.sprintf "%s tree %d is deeper than 2*log2(size+1)" here t)
           end
-        done;
+        done
+        end done;
         (* iterator stability: what the live iterators show through Item() *)
         List.iter (fun x ->
           match ints_of_sx x with
@@ -285,6 +342,7 @@ let small_case id c =
         count "ops";
         if !found then raise Stop) ops
     with Stop -> ());
+    if !nar > 1 then count (Printf.sprintf "cases_with_%d_arenas" !nar);
     count (Printf.sprintf "ntrees_%d" ntrees)
 
 (* ------------------------------------------------------------------------------------------------
@@ -532,6 +590,11 @@ let scale_case id c =
            let zids = List.rev (let acc = ref [] in for j = 0 to n - 1 do acc := z (wd b j) :: !acc done; !acc) in
            mt.(d) <- fst (relabel mt.(s) zids);
            add_count "scale_cloned" n
+       | "u", "forksw" ->
+           (* Allocator.Clone + CloneShallow of every tree, the case goes on with the fork: nothing may have
+              changed (the next checkpoint compares the fork's arena, gaps and headers with the state kept here) *)
+           Array.fill dirty 0 ntrees true;
+           count "scale_forks"
        | "chk", "chk" ->
            count "scale_checkpoints";
            sn.sz <- int_of_sx (List.hd (args (field "sz" r)));
@@ -618,14 +681,17 @@ let scale_case id c =
            for ci = 0 to min (Array.length sn.cells) sn.sz - 1 do if sn.cells.(ci) <> zero_cell then incr nonzero done;
            if !nonzero <> !total || !total <> Hashtbl.length live then
              mismatch id (Printf.sprintf "%s %d cells of the arena are in use, the trees have %d nodes (model %d)" here !nonzero (Hashtbl.length live) !total);
-           if ngaps <> max 0 (sn.sz - 1) - Hashtbl.length live then
-             mismatch id (Printf.sprintf "%s %d gaps, %d cells, %d live nodes" here ngaps sn.sz (Hashtbl.length live));
            let prev = ref 0 in
            for j = 0 to ngaps - 1 do
              let g = wd b (7 * ncells + j) in
-             if g <= !prev || g >= sn.sz || Hashtbl.mem live g then mismatch id (Printf.sprintf "%s gap %d is live, out of range or listed twice" here g);
+             (match Hashtbl.find_opt live g with
+              | Some (t, k) -> propfail id (Printf.sprintf "%s the free list of the allocator contains node %d, which is the element with key %d of tree %d" here g k t)
+              | None -> ());
+             if g <= !prev || g >= sn.sz then mismatch id (Printf.sprintf "%s gap %d is out of range or listed twice" here g);
              prev := g
-           done
+           done;
+           if ngaps <> max 0 (sn.sz - 1) - Hashtbl.length live then
+             mismatch id (Printf.sprintf "%s %d gaps, %d cells, %d live nodes" here ngaps sn.sz (Hashtbl.length live))
        | x, y -> mismatch id (Printf.sprintf "%s observation of kind %s" here x));
       count "ops"; count ("op_" ^ tag o);
       if timing then Printf.eprintf "%s %.2f\n%!" (tag o) (Sys.time () -. t0)
